@@ -12,6 +12,10 @@
 template <size_t SZ, size_t AL>
 struct alignas(AL) Elem { unsigned char b[SZ]; };
 
+// the element type an allocator is rebound to: twice the size, same alignment
+template <class T> struct Twice;
+template <size_t SZ, size_t AL> struct Twice<Elem<SZ, AL>> { typedef Elem<2 * SZ, AL> type; };
+
 struct PoolIface {
   size_t sz = 0, al = 0;
   std::vector<long> geo;
@@ -32,6 +36,11 @@ struct RawIface {
   virtual void* allocateHint(size_t n, const void*) { return allocate(n); }
   virtual void* allocateVia(size_t n) { return allocate(n); }
   virtual void deallocateVia(void* p, size_t n, bool) { deallocate(p, n); }
+  // the allocator the standard containers would use for another element type U = Twice<T>:
+  // std::allocator_traits<Alloc>::rebind_alloc<U>, constructed from this allocator where that is possible
+  size_t promisedRebound = 0;   // alignment the family promises for blocks of U
+  virtual void* allocateRebound(size_t) { return nullptr; }
+  virtual void deallocateRebound(void*, size_t) {}
   virtual void destroy() {}   // runs the destructor of the underlying manager (if the case owns one)
   virtual ~RawIface() {}
 };
